@@ -15,7 +15,7 @@ import numpy as np
 import scipy.sparse as spa
 import scipy.stats as sps
 from fractions import Fraction
-from harness.core import quiet, q, qv, qm, close
+from harness.core import quiet, q, qv, qm
 
 
 def _tok_plain(kind, Mv):
@@ -35,6 +35,7 @@ def gaussobj_section(ctx, D, rng, S):
     from harness.props import c04 as base
     from scipy.sparse.linalg import aslinearoperator
     from cuqi import config
+    close = base.close
     dy, dec, call, fnum, verdict, _dense, relclose = base.dy, base.dec, base.call, base.fnum, base.verdict, base._dense, base.relclose
     cov_hist = {}
     ctx.extra_cov["gaussobj_histogram"] = cov_hist
